@@ -1,4 +1,5 @@
 import BppProofs.Lemmas.LogSpace
+import BppProofs.Lemmas.LogSpace2
 /-!
 # C07 — log-domain reductions   (VectorTools.h:637-753, NumTools.h:96-101)
 
@@ -163,15 +164,149 @@ theorem logMeanExp_spec (v : List ℝ) (hv : v ≠ []) :
   simp only [bind, Except.bind, pure, Except.pure, LogSpace.log_eq, LogSpace.ofNat_eq]
   rw [Real.log_div (sum_exp_pos v hv).ne' hn.ne']
 
-/-- weighted `logSumExp (v, w) = ln Σ wᵢ·exp vᵢ` whenever that sum is not 0 -/
-theorem lsew_spec (v w : List ℝ) (hv : v ≠ []) (h : v.length = w.length)
-    (hpos : (List.zipWith (fun x c => c * Real.exp x) v w).sum ≠ 0) :
-    logSumExpW v w = .ok (Real.log (List.zipWith (fun x c => c * Real.exp x) v w).sum) :=
-  logSumExpW_eq v w hv h hpos
+/-- weighted `logSumExp (v, w) = ln Σ wᵢ·exp vᵢ` for a **positive** weighted sum (`wsum v w` is
+`Σ wᵢ·exp vᵢ`).  For a sum `≤ 0` the code takes `std::log` of a non-positive number: see
+`lsew_sign_outcome` — over `ℝ` alone `Real.log x = ln |x|` would hide that. -/
+theorem lsew_spec (v w : List ℝ) (hv : v ≠ []) (h : v.length = w.length) (hpos : 0 < wsum v w) :
+    logSumExpW v w = .ok (Real.log (wsum v w)) := logSumExpW_eq_pos v w hv h hpos
+
+example : logSumExpW ([0, 1] : List ℝ) [2, 3] = .ok (Real.log (2 * Real.exp 0 + 3 * Real.exp 1)) := by
+  have h : wsum ([0, 1] : List ℝ) [2, 3] = 2 * Real.exp 0 + 3 * Real.exp 1 := by simp [wsum]
+  rw [lsew_spec [0, 1] [2, 3] (by simp) rfl (by rw [h]; positivity), h]
+
+/-- the complete outcome on finite inputs, in the reading with `±∞` and NaN (which is what the
+double computation does with the special values): the logarithm for a positive weighted sum, **NaN
+for a negative one** (`std::log` of a negative number), `-∞` for a zero one.  Weights of either
+sign are allowed. -/
+theorem lsew_sign_outcome (v w : List ℝ) (hv : v ≠ []) (h : v.length = w.length) :
+    logSumExpW (v.map Ext.fin) (w.map Ext.fin) =
+      .ok (if 0 < wsum v w then Ext.fin (Real.log (wsum v w))
+           else if wsum v w < 0 then Ext.nan else Ext.ninf) := logSumExpW_fin v w hv h
+
+/-- e.g. `logSumExp([0], [-1])` is NaN, not `ln |-1| = 0` -/
+theorem lsew_negative_nan : logSumExpW [Ext.fin (0 : ℝ)] [Ext.fin (-1)] = .ok Ext.nan := by
+  have := lsew_sign_outcome [0] [-1] (by simp) rfl
+  simp only [wsum, List.zipWith_cons_cons, List.zipWith_nil_right, List.sum_cons, List.sum_nil, Real.exp_zero] at this
+  norm_num at this
+  simpa using this
+
+/-- shift-equivariance of the weighted form: `logSumExp (v + c, w) = logSumExp (v, w) + c`
+(positive weighted sum) -/
+theorem lsew_shift (v w : List ℝ) (c : ℝ) (hv : v ≠ []) (h : v.length = w.length) (hpos : 0 < wsum v w) :
+    ∃ r, logSumExpW v w = .ok r ∧ logSumExpW (v.map (· + c)) w = .ok (r + c) := by
+  refine ⟨_, lsew_spec v w hv h hpos, ?_⟩
+  have hpos' : 0 < wsum (v.map (· + c)) w := by rw [wsum_map_add]; exact mul_pos hpos (Real.exp_pos _)
+  rw [lsew_spec _ _ (by simpa using hv) (by simpa using h) hpos', wsum_map_add,
+    Real.log_mul hpos.ne' (Real.exp_pos _).ne', Real.log_exp]
+
+/-- bounds of the weighted form for non-negative weights and a positive weighted sum: with
+`M = max v`, `logSumExp (v, w) ≤ M + ln Σw`, and `vᵢ + ln wᵢ ≤ logSumExp (v, w)` for every entry with
+a positive weight (in particular `M + ln w_argmax` when the maximal entry carries weight) -/
+theorem lsew_bounds (v w : List ℝ) (hv : v ≠ []) (h : v.length = w.length) (hw : ∀ c ∈ w, 0 ≤ c)
+    (hpos : 0 < wsum v w) :
+    ∃ M r, vmax v = .ok M ∧ logSumExpW v w = .ok r ∧ 0 < w.sum ∧ r ≤ M + Real.log w.sum ∧
+      ∀ (i : Nat) (x c : ℝ), v[i]? = some x → w[i]? = some c → 0 < c → x + Real.log c ≤ r := by
+  obtain ⟨M, hM⟩ := vmax_defined v hv
+  obtain ⟨-, hle⟩ := vmax_spec v M hM
+  have hup := wsum_le v w M h hw hle
+  have hsw : 0 < w.sum := by
+    by_contra hn
+    have : w.sum * Real.exp M ≤ 0 := mul_nonpos_of_nonpos_of_nonneg (not_lt.mp hn) (Real.exp_pos _).le
+    linarith
+  refine ⟨M, _, hM, lsew_spec v w hv h hpos, hsw, ?_, ?_⟩
+  · have := Real.log_le_log hpos hup
+    rwa [Real.log_mul hsw.ne' (Real.exp_pos _).ne', Real.log_exp, add_comm] at this
+  · intro i x c hx hc hcpos
+    have hterm := wsum_ge_term v w hw i x c hx hc
+    have := Real.log_le_log (mul_pos hcpos (Real.exp_pos x)) hterm
+    rwa [Real.log_mul hcpos.ne' (Real.exp_pos _).ne', Real.log_exp, add_comm] at this
+
+example : ∃ M r, vmax ([0, 1] : List ℝ) = .ok M ∧ logSumExpW ([0, 1] : List ℝ) [2, 3] = .ok r ∧
+    r ≤ M + Real.log ([2, 3] : List ℝ).sum := by
+  obtain ⟨M, r, h1, h2, -, h3, -⟩ := lsew_bounds ([0, 1] : List ℝ) [2, 3] (by simp) rfl
+    (by intro c hc; simp at hc; rcases hc with rfl | rfl <;> norm_num)
+    (by simp only [wsum, List.zipWith_cons_cons, List.zipWith_nil_right, List.sum_cons, List.sum_nil]; positivity)
+  exact ⟨M, r, h1, h2, h3⟩
+
+/-- the structural reason for overflow-safety, weighted form: every argument of `exp` is `≤ 0`,
+so every term is `wᵢ·t` with `t ∈ (0,1]` -/
+theorem lsew_args_nonpos (v w : List ℝ) (hv : v ≠ []) (h : v.length = w.length) :
+    ∃ M, vmax v = .ok M ∧
+      logSumExpW v w = .ok (Real.log (List.zipWith (fun x c => c * Real.exp (x - M)) v w).sum + M) ∧
+      (∀ a ∈ shifted M v, a ≤ 0) ∧ (∀ a ∈ shifted M v, 0 < Real.exp a ∧ Real.exp a ≤ 1) := by
+  obtain ⟨M, hM, hl⟩ := logSumExpW_unfold v w hv h
+  obtain ⟨-, hle⟩ := vmax_spec v M hM
+  have hneg : ∀ a ∈ shifted M v, a ≤ 0 := by
+    intro a ha
+    simp only [shifted, List.mem_map] at ha
+    obtain ⟨x, hx, rfl⟩ := ha
+    linarith [hle x hx]
+  exact ⟨M, hM, hl, hneg,
+    fun a ha => ⟨Real.exp_pos a, by have := Real.exp_le_exp.mpr (hneg a ha); rwa [Real.exp_zero] at this⟩⟩
+
+/-- weighted `sumExp` is shift-*multiplicative*: `sumExp (v + c, w) = sumExp (v, w)·exp c` -/
+theorem sumExpW_shift (v w : List ℝ) (c : ℝ) (hv : v ≠ []) (h : v.length = w.length) :
+    ∃ r, sumExpW v w = .ok r ∧ sumExpW (v.map (· + c)) w = .ok (r * Real.exp c) := by
+  refine ⟨_, sumExpW_eq v w hv h, ?_⟩
+  rw [sumExpW_eq _ _ (by simpa using hv) (by simpa using h)]
+  exact congrArg Except.ok (wsum_map_add v w c)
+
+/-- `sumExp (v + c) = sumExp v · exp c`, and `exp M ≤ sumExp v ≤ n·exp M` with `M = max v` -/
+theorem sumExp_shift_bounds (v : List ℝ) (c : ℝ) (hv : v ≠ []) :
+    ∃ M r, vmax v = .ok M ∧ sumExp v = .ok r ∧ sumExp (v.map (· + c)) = .ok (r * Real.exp c) ∧
+      Real.exp M ≤ r ∧ r ≤ v.length * Real.exp M := by
+  obtain ⟨M, hM⟩ := vmax_defined v hv
+  obtain ⟨hmem, hle⟩ := vmax_spec v M hM
+  obtain ⟨hlo, hhi⟩ := sum_exp_bounds v M hmem hle
+  refine ⟨M, _, hM, sumExp_eq v hv, ?_, hlo, hhi⟩
+  rw [sumExp_eq _ (by simpa using hv), sum_exp_map_add]
+
+/-- `logMeanExp (v + c) = logMeanExp v + c`, and `M - ln n ≤ logMeanExp v ≤ M` with `M = max v` -/
+theorem lme_shift_bounds (v : List ℝ) (c : ℝ) (hv : v ≠ []) :
+    ∃ M r, vmax v = .ok M ∧ logMeanExp v = .ok r ∧ logMeanExp (v.map (· + c)) = .ok (r + c) ∧
+      M - Real.log v.length ≤ r ∧ r ≤ M := by
+  obtain ⟨M, l, hM, hl, hlo, hhi⟩ := lse_bounds v hv
+  obtain ⟨l', hl', hshift⟩ := lse_shift v c hv
+  rw [hl] at hl'; cases hl'
+  refine ⟨M, l - Real.log v.length, hM, ?_, ?_, by linarith, by linarith⟩
+  · unfold logMeanExp; rw [hl]; rfl
+  · unfold logMeanExp; rw [hshift]
+    simp only [bind, Except.bind, pure, Except.pure, LogSpace.log_eq, LogSpace.ofNat_eq, List.length_map]
+    congr 1; ring
+
+/-- the pairwise log-sum is shift-equivariant -/
+theorem logsum_shift (a b c : ℝ) : logsum (a + c) (b + c) = logsum a b + c := by
+  rw [logsum_eq, logsum_eq, Real.exp_add, Real.exp_add, ← add_mul,
+    Real.log_mul (by positivity) (Real.exp_pos _).ne', Real.log_exp]
+
+/-! ### infinite maxima (reading with `±∞`): documented BadNumberException / infinite answers -/
+
+/-- weighted `logSumExp` / `sumExp` of log-zeros only raise BadNumberException (the maximum is
+`-∞`) … -/
+theorem lsew_all_logzero_raises (n : Nat) (w : List (Ext ℝ)) (hw : w.length = n + 1) :
+    logSumExpW (List.replicate (n + 1) (Ext.ninf : Ext ℝ)) w = .error .badnumber ∧
+    (n ≠ 0 → sumExpW (List.replicate (n + 1) (Ext.ninf : Ext ℝ)) w = .error .badnumber) :=
+  ⟨logSumExpW_inf_max _ w _ (by simp [hw]) (vmax_all_logzero n) rfl,
+   fun hn => sumExpW_inf_max _ w _ (by simp [hw]) (by simpa using hn) (vmax_all_logzero n) rfl⟩
+
+/-- … and so does any vector whose maximum is infinite (a `+∞` entry); the unweighted
+`logSumExp` answers that infinite maximum -/
+theorem log_inf_max (v w : List (Ext ℝ)) (M : Ext ℝ) (hM : vmax v = .ok M) (hi : Ext.isInf' M = true) :
+    (v.length = w.length → logSumExpW v w = .error .badnumber) ∧
+    (v.length ≠ 1 → logSumExp v = .ok M) :=
+  ⟨fun h => logSumExpW_inf_max v w M h hM hi, fun h1 => logSumExp_inf_max v M h1 hM hi⟩
+
+example : logSumExp [Ext.fin (1 : ℝ), Ext.pinf, Ext.fin 2] = .ok Ext.pinf ∧
+    logSumExpW [Ext.fin (1 : ℝ), Ext.pinf] [Ext.fin 1, Ext.fin 1] = .error .badnumber := by
+  have hM : vmax [Ext.fin (1 : ℝ), Ext.pinf, Ext.fin 2] = .ok Ext.pinf := by
+    simp [vmax, extremum, Ext.lt]
+  have hM2 : vmax [Ext.fin (1 : ℝ), Ext.pinf] = .ok Ext.pinf := by
+    simp [vmax, extremum, Ext.lt]
+  exact ⟨(log_inf_max _ [] _ hM rfl).2 (by simp), (log_inf_max _ _ _ hM2 rfl).1 rfl⟩
 
 /-- weighted `sumExp (v, w) = Σ wᵢ·exp vᵢ` -/
 theorem sumExpW_spec (v w : List ℝ) (hv : v ≠ []) (h : v.length = w.length) :
-    sumExpW v w = .ok (List.zipWith (fun x c => c * Real.exp x) v w).sum := sumExpW_eq v w hv h
+    sumExpW v w = .ok (wsum v w) := sumExpW_eq v w hv h
 
 /-- the weighted reductions report a size mismatch -/
 theorem log_mismatch_raises (v w : List ℝ) (h : v.length ≠ w.length) :
